@@ -197,9 +197,9 @@ class Program:
         from .alias import apply_aliases, apply_field_groups, apply_arg_fields
         from .inline import inline_program
         apply_aliases(self)
-        apply_field_groups(self)
         apply_arg_fields(self)
         inline_program(self)
+        apply_field_groups(self)       # after expansion: constructor helpers of a new nested struct are literals by now
 
     def fn(self, path, unit=None):
         """Function by normalised def-path; None when absent."""
